@@ -406,6 +406,10 @@ static void xml_count(size_t n)
         g_op.xml_bytes += n;
         if (g_op.ceiling && g_op.cost() > g_op.ceiling && g_on_ceiling)
             g_on_ceiling();
+        // backstop for calls that run without a ceiling (environment-fault families): no input of the simulator is
+        // larger than a few MB, so a GiB of libxml2 memory inside one call is out of all proportion in any case
+        if (g_op.xml_bytes > (1ull << 30) && g_on_ceiling)
+            g_on_ceiling();
     }
 }
 static void* xml_malloc(size_t n)
